@@ -48,8 +48,8 @@ RULES = [
     (r'^sub:<supply::constrained::Constrained as supply::SupplyBound>::provided_service:- p0\.budget \+ p0\.deadline', SUPPLY),
     (r'^sub:<supply::.*service_time:.*\(\(p1 / p0\.budget\) \* p0\.budget\)', 'guarded by full_budget < demand (the enclosing branch) together with budget <= period: slack + (demand - full_budget) is a sum of non-negative terms; the linear reasoner does not see through the product'),
     (r'^div:', DIVPOS),
-    (r'^index:.*:p0\.min_distance\[0\]$', NONEMPTY),
-    (r'^unwrap:.*:unwrap\(last\((p0|loopvar)\.min_distance\)\)$', NONEMPTY),
+    (r'^index:.*\.min_distance\[0\]$', NONEMPTY),
+    (r'^unwrap:.*:unwrap\(last\(.*\.min_distance\)\)$', NONEMPTY),
     (r'^sub:arrival::curve::Curve::min_distance:len\(p0\.min_distance\) - 1', NONEMPTY),
     (r'^index:(arrival|wcet)::curve::Curve::extrapolate(_steps|_with_bound)?:(p0|loopvar)\.(min_distance|wcet_of_n_jobs)\[\$0\]$', HALF),
     (r'^sub:(arrival|wcet)::curve::Curve::extrapolate(_steps|_with_bound)?:(- \$0 \+ )?len\((p0|loopvar)\.(min_distance|wcet_of_n_jobs)\)( - \$0| - 1)$', HALF),
